@@ -12,6 +12,10 @@ Three layers (DESIGN.md section 7, C16):
       PARSEERR    error.make_error_from_parse_error
       PROCESS     the real glue.process_ir driven with stub passes (module attributes patched)
       QUEUE       the real glue.only_parse_emboss_file on random import graphs (dict readers)
+      (round 2, harness/corr/C16drv.py) FINDREAD / READERR / PATH / EMBOSSC / FRONTEND / CODEGEN /
+                  TOKLOC / MERGE: _find_in_dirs_and_read on real directory trees with file-system
+                  faults, the unreadable-file group, the three executables' main() in-process with
+                  stubbed front end / back end, token locations and merge_source_locations
  3. Exploration (the main engine for the unmodelled passes): generated inputs through
     glue.parse_emboss_file, header_generator.generate_header, IR serialisation,
     error.format_errors with the real sources, and the executables in subprocesses; the
@@ -31,6 +35,7 @@ import traceback
 
 from harness.lib import common, emb
 from harness.corr import C16gen as gen
+from harness.corr import C16drv as drv
 
 from compiler.front_end import glue
 from compiler.util import error
@@ -133,6 +138,20 @@ def position_problem(pos, lines):
     return None
 
 
+_KEYWORD = re.compile(r"\$[a-z_]+$")
+
+
+def user_keyword_at(loc, text):
+    """The `$keyword` the user wrote at exactly this (single-line) span of `text`, or None."""
+    if text is None:
+        return None
+    lines = text.splitlines()
+    if loc.start.line != loc.end.line or not (1 <= loc.start.line <= len(lines)):
+        return None
+    span = lines[loc.start.line - 1][loc.start.column - 1:loc.end.column - 1]
+    return span if _KEYWORD.match(span) else None
+
+
 def check_errors(errors, files, main, what):
     """Property statement applied to a list of error groups.  Returns list of
     (key, description)."""
@@ -152,8 +171,14 @@ def check_errors(errors, files, main, what):
                 continue
             head = m.message.split("\n")[0][:80]
             if loc.is_synthetic:
-                bad.append(("synthetic-location-shown:" + msg_kind(g[0])[:48],
-                            "%s: message %r has a synthetic location (rendered as [compiler bug])" % (what, head)))
+                # narrow key: when the hidden position is exactly a `$keyword` the user typed (the
+                # location of a desugared `$next`, `$size_in_bytes`, …) the key names that keyword;
+                # otherwise the position belongs to text the user never wrote (a skeleton of synthetics.py)
+                origin = user_keyword_at(loc, sources.get(m.source_file) if isinstance(m.source_file, str) else None)
+                bad.append(("synthetic-location-shown%s:%s" % ("@" + origin if origin else "", msg_kind(g[0])[:48]),
+                            "%s: message %r has a synthetic location %s (rendered as [compiler bug])%s" % (
+                                what, head, loc, " although it is the position of the `%s` the user wrote" % origin
+                                if origin else "")))
                 continue
             f = m.source_file
             if not isinstance(f, str):
@@ -176,7 +201,10 @@ def check_errors(errors, files, main, what):
             if p is None and not (loc.start <= loc.end):
                 p = "start after end"
             if p:
-                bad.append(("position-outside-file:" + msg_kind(g[0])[:48],
+                # `0:0` = the message has no location at all (location_or_default); a different class
+                # of defect than a position that lies outside its file
+                nowhere = loc.start == (0, 0) and loc.end == (0, 0)
+                bad.append((("no-position(0:0):" if nowhere else "position-outside-file:") + msg_kind(g[0])[:48],
                             "%s: message %r at %s in %r: %s" % (what, head, loc, f, p)))
     return bad
 
@@ -468,17 +496,20 @@ class Tie:
         self.chk, self.name = chk, name
         self.items = []
 
-    def add(self, line, want, ctx, spec_ok=True):
-        self.items.append((line, want, ctx, spec_ok))
+    def add(self, line, want, ctx, spec_ok=True, norm=None):
+        """`norm`: optional normalisation of the model's answer before the comparison."""
+        self.items.append((line, want, ctx, spec_ok, norm))
 
     def flush(self):
         if not self.items:
             return 0
         answers = ask([i[0] for i in self.items])
         bad = 0
-        for (line, want, ctx, spec_ok), got in zip(self.items, answers):
+        for (line, want, ctx, spec_ok, norm), got in zip(self.items, answers):
             self.chk.count()
-            if got != want:
+            if norm is not None:
+                got = norm(got)
+            if got != want or not spec_ok:
                 bad += 1
                 if bad <= 3:
                     # spec_ok: the real output satisfied the independent spec oracle ⇒ the model differs
@@ -869,6 +900,12 @@ def cli_cases(r, n, pool_cases):
     # raw bytes that are not UTF-8, an unreadable path, a directory as input
     out.append({"kind": "cli/raw-bytes", "raw": {"m.emb": b"struct Foo:\n  0 [+1]  UInt  x  # \xff\xfe\n"}, "main": "m.emb"})
     out.append({"kind": "cli/missing", "raw": {}, "main": "m.emb"})
+    # names the operating system refuses outright (not an OSError): NUL inside an import name
+    out.append({"kind": "cli/nul-in-import-name", "main": "m.emb",
+                "raw": {"m.emb": b'import "a\x00b.emb" as x\nstruct Foo:\n  0 [+1]  UInt  x\n'}})
+    # file-system level faults: main file / imports that exist but cannot be opened as text,
+    # across one or two --import-dir's (quick: a rotating sample, thorough: all of them)
+    out += drv.fs_cli_cases(r, 10 if n < 50 else 10 ** 6)
     picks = r.sample(pool_cases, min(n, len(pool_cases)))
     for c in picks:
         if all(_plain_name(k) for k in c["files"]):
@@ -899,14 +936,20 @@ def run_cli(job):
     env = dict(os.environ, PYTHONPATH=common.REPO)
     py = sys.executable
     steps = []
+    import_dirs = [os.path.join(d, "in")]
+    if "fs" in c:
+        import_dirs = drv.build_fs_case(os.path.join(d, "in"), c)
+        if import_dirs is None:
+            return idx, [], False       # layout not representable on this file system: skip
+    dir_args = [x for i in import_dirs for x in ("--import-dir", i)]
     if tool == "embossc":
-        cmd = [py, os.path.join(common.REPO, "embossc"), "--import-dir", os.path.join(d, "in"),
-               "--output-path", os.path.join(d, "out"), "--color-output", "always" if idx % 2 else "never", c["main"]]
+        cmd = [py, os.path.join(common.REPO, "embossc")] + dir_args + [
+            "--output-path", os.path.join(d, "out"), "--color-output", "always" if idx % 2 else "never", c["main"]]
         steps.append(("embossc", cmd, None))
     else:
         irf = os.path.join(d, "ir.json")
-        steps.append(("emboss_front_end", [py, "-m", "compiler.front_end.emboss_front_end", "--import-dir",
-                                           os.path.join(d, "in"), "--output-file", irf, c["main"]], None))
+        steps.append(("emboss_front_end", [py, "-m", "compiler.front_end.emboss_front_end"] + dir_args + [
+            "--output-file", irf, c["main"]], None))
         steps.append(("emboss_codegen_cpp", [py, "-m", "compiler.back_end.cpp.emboss_codegen_cpp",
                                              "--input-file", irf, "--output-file", os.path.join(d, "out.h")], irf))
     res = []
@@ -946,8 +989,17 @@ def explore_cli(chk, r, n, pool_cases, procs=4):
                 exc = re.findall(r"^(\w+(?:\.\w+)*(?:Error|Exception))\b", stderr, re.M)
                 repo = os.path.realpath(common.REPO) + os.sep
                 site = [(os.path.basename(f), fn) for f, fn in m if os.path.realpath(f).startswith(repo)]
-                key = "crash:%s:%s:%s" % (site[-1][0] if site else "?", site[-1][1] if site else "?",
-                                          exc[-1].split(".")[-1] if exc else "?")
+                exc_name = exc[-1].split(".")[-1] if exc else "?"
+                where = site[-1] if site else ("?", "?")
+                if exc_name == "RecursionError" and site:
+                    # same rule as crash_key(): the innermost frame is arbitrary, name the emboss function
+                    # that recurses most among the last 400 frames
+                    count = {}
+                    for k in site[-400:]:
+                        count[k] = count.get(k, 0) + 1
+                    top = max(count.values())
+                    where = sorted(k for k, v in count.items() if v == top)[0]
+                key = "crash:%s:%s:%s" % (where[0], where[1], exc_name)
                 problem = (key, "%s printed a traceback (exit %s): %s" % (name, rc, stderr[-600:]))
             elif rc not in (0, 1):
                 problem = ("cli-exit-status:" + name, "exit status %r, stderr %s" % (rc, stderr[-300:]))
@@ -960,10 +1012,22 @@ def explore_cli(chk, r, n, pool_cases, procs=4):
             if problem:
                 files = {k: v.decode("latin-1") for k, v in c["raw"].items()}
                 chk.violation("input", {"input": files.get(c["main"], ""), "files_latin1": files, "main": c["main"],
-                                        "tool": name, "cmd": cmd, "observed": problem[1],
+                                        "fs_layout": c.get("fs"), "tool": name, "cmd": cmd, "observed": problem[1],
                                         "expected": "exit 0 with output, or exit 1 with error messages, no traceback"},
                               key=problem[0])
         last = res[-1] if res else None
+        if "fs" in c and last and last[1] in (0, 1):
+            stats["fs_cases"] = stats.get("fs_cases", 0) + 1
+            chk.nontrivial("cli-fs:%s:%s" % (c["kind"], last[1]))
+            # spec: compiles iff some import directory, in order, provides a readable file; an unreadable
+            # one is reported as "Unable to read file." (exit 1)
+            complete = last[1] == 0 and len(res) == (1 if tool == "embossc" else 2)
+            if (c["expect"] == 0) != complete or (c["expect"] == 1 and "Unable to read file." not in last[2]):
+                chk.violation("input", {"input": c["fs"]["main_text"] if c["fs"]["role"] == "import" else "", "main": c["main"],
+                                        "fs_layout": c["fs"], "tool": last[0], "cmd": last[3],
+                                        "observed": "exit %s, stderr %s" % (last[1], last[2][-400:]),
+                                        "expected": "exit %d%s" % (c["expect"], " with 'Unable to read file.'" if c["expect"] else "")},
+                              key="cli-fs-fault-misreported:" + c["fs"]["states"][0])
         if last and last[1] == 0 and len(res) == (1 if tool == "embossc" else 2) and not produced:
             chk.violation("input", {"input": "", "main": c["main"], "observed": "exit 0 but no header written",
                                     "expected": "header file"}, key="cli-no-output")
@@ -999,7 +1063,7 @@ def exploration(chk, tier, with_model):
                 ex.record(case, {"kind": case["kind"], "outcome": res["outcome"], "bad": [(key, desc)],
                                  "kinds": [], "fmt": None})
     first = load_corpus() + testdata_cases() + gen.boundary_cases()
-    n = 1200 if tier == "quick" else 6000
+    n = 1000 if tier == "quick" else 6000
     cases = first + [gen.pick(r) for _ in range(n)]
     t0 = time.time()
     ex.run(cases, procs=4)
@@ -1034,6 +1098,8 @@ def _run(tier):
                        "non-trivial & distinct = distinct (outcome class, normalised first error message) of the "
                        "exploration + distinct model answers of the FORMAT/PROCESS/QUEUE ties")
     chk.trusted += ["Python str.splitlines/repr as oracles for the model's re-implementations (tied by ops SPLITLINES/REPR)",
+                    "open()/os.path as primitives: the per-directory outcome of open().read() is classified by the harness and "
+                    "given to the model (FINDREAD); os.path.join/dirname are tied by PATH",
                     "the exploration samples: totality of passes outside the model (module_ir, symbol_resolver, "
                     "type_check, expression_bounds, constraints, attribute checkers, write_inference, back end) is "
                     "exploration only"]
@@ -1058,6 +1124,10 @@ def _run(tier):
         timed("tie_parse_error", tie_parse_error, chk, r, 300 if q else 3000, real_pes)
         timed("tie_process", tie_process, chk, r, 600 if q else 8000)
         timed("tie_queue", tie_queue, chk, r, 150 if q else 2000)
+        timed("tie_findread", drv.tie_findread, chk, r, 250 if q else 3000)
+        timed("tie_path", drv.tie_path, chk, r, 200 if q else 2000)
+        timed("tie_executables", drv.tie_executables, chk, r, 250 if q else 3000)
+        timed("tie_locations", drv.tie_locations, chk, r, cases, 2500 if q else 30000, 400 if q else 5000)
         chk.extra["traces_validated_against_impl"] = sum(v["compared"] for v in chk.extra.get("tie", {}).values())
     timed("cli", explore_cli, chk, common.rng("C16-cli"), 7 if tier == "quick" else 150,
           [c for c in cases if c["kind"].split("/")[0] in ("boundary", "sem", "grammar", "mutate", "imports", "corpus", "soup")])
@@ -1089,6 +1159,28 @@ def replay(path):
     rec = json.load(open(path))
     files = rec.get("files") or {rec.get("main", "m.emb"): rec.get("input", "")}
     main = rec.get("main", "m.emb")
+    if rec.get("fs_layout"):
+        c = {"kind": "replay", "raw": {}, "main": main, "fs": rec["fs_layout"], "expect": None}
+        idx, res, produced = run_cli((0, c, "embossc" if rec.get("tool", "embossc") == "embossc" else "split"))
+        for name, rc, stderr, cmd in res:
+            print("%s: exit %s\n%s" % (name, rc, stderr[-2000:]))
+        return 0
+    if rec.get("layout"):
+        import tempfile
+        lay = rec["layout"]
+        with tempfile.TemporaryDirectory(dir=common.scratch()) as top:
+            dirs = []
+            for j, st in enumerate(lay["states"]):
+                dd = os.path.join(top, "d%d" % j)
+                os.makedirs(dd)
+                drv.build_state(dd, lay["name"], st)
+                dirs.append(dd)
+            from compiler.front_end import emboss_front_end
+            try:
+                print("_find_in_dirs_and_read →", repr(emboss_front_end._find_in_dirs_and_read(dirs)(lay["name"]))[:1500])
+            except Exception as e:  # noqa: BLE001
+                print("_find_in_dirs_and_read RAISED", " | ".join(tb_tail(e)))
+        return 0
     if rec.get("files_latin1") is not None:
         chk = None
         c = {"kind": "replay", "raw": {k: v.encode("latin-1") for k, v in rec["files_latin1"].items()}, "main": main}
